@@ -260,9 +260,38 @@ def _check_complex(r, mode):
     return {'nontrivial': True, 'classes': ['complex:' + r['kind']] + (['complex_data'] if cdata else [])}
 
 
+@st.composite
+def wide_case(draw, tier, mode):
+    """Sizes beyond the small expressions: block operators with 9-17 blocks (their dense forms are hand-written), and
+    an input pytree whose first leaf has a few hundred elements under the GENERIC dense form."""
+    if draw(st.booleans()):
+        from .c10 import single_case
+
+        c = dict(draw(single_case(mode, wide=True, allow_cg=False)))
+        c.pop('mode', None)
+        c['generic'] = False
+    else:
+        G = gen.GenCtx(mode, cap=400)
+        n1 = draw(st.sampled_from([257, 300, 384, 512, 600]))
+        shape1 = draw(st.sampled_from([[n1], [3, n1 // 3], [n1 // 4, 4]]))
+        S = {'t': draw(st.sampled_from(['tuple', 'list'])), 'items': [St.leaf(shape1, 'float32'), St.leaf([draw(st.integers(1, 4))], 'float32')]}
+        kind = draw(st.sampled_from(['hom', 'diag1', 'id_sum']))
+        if kind == 'hom':
+            expr = {'k': 'hom', 'in': S, 'value': draw(st.sampled_from([2.0, -0.5, 3.0])), 'ty': 'py_float'}
+        elif kind == 'diag1':
+            expr = {'k': 'diag', 'in': S, 'vals': [draw(st.sampled_from([2.0, -3.0, 0.5]))], 'axis': -1, 'vdtype': 'float32'}
+        else:
+            expr = {'k': 'add', 'ops': [{'k': 'id', 'in': S}, {'k': 'hom', 'in': S, 'value': 2.0, 'ty': 'py_float'}], 'via': 'plus', 'tree': [0, 1]}
+        c = {'defs': G.defs, 'expr': expr, 'generic': True, 'wide_generic': True}
+    c['probe'] = draw(st.lists(st.integers(0, 1000), min_size=8, max_size=8))
+    c['a'] = draw(st.sampled_from([1, -1, 2, 0.5]))
+    c['b'] = draw(st.sampled_from([1, -2, 0.5]))
+    return c
+
+
 def strategy(tier, mode):
     return st.one_of(case_st(tier, mode), case_st(tier, mode), override_case(tier, mode), override_case(tier, mode),
-                     complex_case(tier, mode))
+                     complex_case(tier, mode), case_st(tier, mode), override_case(tier, mode), wide_case(tier, mode))
 
 
 def check(case, mode):
@@ -298,7 +327,7 @@ def check(case, mode):
     if np.abs(fx - want).max(initial=0) > (3 * ops.tolerance(den, np.abs(x), eps)).max(initial=0) + 1e-30:
         raise Violation('mv-vs-as_matrix', 'op(x) differs from as_matrix() @ flatten(x)')
     # ---- generic column-by-column implementation
-    if case.get('generic') and n <= 12:
+    if case.get('generic') and (n <= 12 or case.get('wide_generic')):
         G = np.asarray(must_not_raise('generic-as_matrix', AbstractLinearOperator.as_matrix, op), dtype=np.float64)
         _cmp_matrix(G, den, eps, 'generic-as_matrix')
         classes.append('generic_as_matrix_run')
@@ -312,6 +341,8 @@ def check(case, mode):
         classes += ['override:block_' + bk for bk in ('row', 'col', 'diag') if 'block_' + bk in kinds]
     if St.nleaves(den.in_S) >= 2 or St.nleaves(den.out_S) >= 2:
         classes.append('multi_leaf')
+    if case.get('wide_generic'):
+        classes.append('generic_as_matrix_on_a_long_leaf')
     return {'nontrivial': bool(ov) or St.nleaves(den.in_S) >= 2 or St.nleaves(den.out_S) >= 2, 'classes': classes}
 
 
